@@ -64,7 +64,10 @@ if $confirmed; then
   if [ -n "$(git -C /repo status --short | grep -v '^??')" ]; then say "/repo has local changes; refusing"; exit 2; fi
   git -C /repo apply --3way $DST/patch.diff >>$log 2>&1 || git -C /repo apply $DST/patch.diff >>$log 2>&1 || { say "patch does not apply to /repo"; exit 2; }
   for c in $CHECKS; do
+    # evidence files must come from runs on the unchanged tree: keep the committed one aside
+    [ -f /verif/evidence/$c.json ] && cp /verif/evidence/$c.json /verif/work/evidence.$c.keep.$$
     out=$(/verif/vcheck $c quick 2>&1); rc=$?
+    [ -f /verif/work/evidence.$c.keep.$$ ] && mv -f /verif/work/evidence.$c.keep.$$ /verif/evidence/$c.json
     echo "$out" | cut -c1-500 >>$log
     sigs=$(echo "$out" | grep -o 'signature=[^ ]*' | sort -u | tr '\n' ' ')
     say "check $c quick: exit $rc $sigs"
